@@ -24,9 +24,15 @@
 (* Wake Release), arguments (l, a, t, i, x, res), links (Wake: links that  *)
 (* may reconnect by themselves), parked (pairs <<a,b>> whose disconnect    *)
 (* handling at a is held back by the harness: hook peer.read.disconnect),  *)
-(* st = projected state.                                                   *)
+(* held (directions <<a,b>> whose frames the harness keeps in flight),     *)
+(* st = projected state (rx / ri: per tunnel the unit numbers delivered to *)
+(* the target / read back by the ingress application, in order).           *)
 (***************************************************************************)
 EXTENDS System, IOUtils
+
+CONSTANT Lag     \* 0: the search covers every order of the silent steps.  n > 0: states that are more than n events
+                 \* behind the furthest state found so far are not expanded (fast pass: an execution accepted this way
+                 \* is accepted; a rejection is only final when the full search rejects it too)
 
 VARIABLES l,      \* next event
           phase   \* "idle" | "settle"
@@ -38,6 +44,7 @@ tvars == <<vars, l, phase>>
 S(t) == Range(t)                        \* JSON array -> set
 LinkOf(t) == {t[1], t[2]}
 Parked == {<<p[1], p[2]>> : p \in S(ev.parked)}
+Held == {<<p[1], p[2]>> : p \in S(ev.held)}     \* directions whose frames the harness holds back (in flight)
 
 TraceInit == /\ InitWith([links |-> {}, exits |-> {}, sleepers |-> {}, ingress |-> {}])
              /\ l = 1 /\ phase = "idle" /\ TLCSet(1, 1)
@@ -69,10 +76,11 @@ TData == /\ Begin("Data")
             THEN (tun[ev.t].st # "open" \/ ~CanSend(tun[ev.t].i, tun[ev.t].nh)) /\ UNCHANGED vars
             ELSE DataFwd(ev.t)
 
+Going == {x \in gone : <<x[1], x[2]>> \notin Parked}
 Silent ==
   /\ phase = "settle"
-  /\ \/ \E d \in Dirs : Deliver(d[1], d[2]) \/ DropStale(d[1], d[2])
-     \/ \E x \in gone : <<x[1], x[2]>> \notin Parked /\ PeerGone(x[1], x[2], x[3])
+  /\ \/ \E d \in Dirs \ Held : Deliver(d[1], d[2]) \/ DropStale(d[1], d[2])
+     \/ \E x \in Going : PeerGone(x[1], x[2], x[3])
      \/ \E x \in pend : Replay(x[1], x[2])
      \/ \E a \in Agent : WakeAnnounce(a)
      \/ \E t \in Tunnels : DataRev(t)
@@ -82,7 +90,7 @@ Silent ==
 
 \* quiescent, except for the disconnect handling the harness holds back
 QuiescentP ==
-  /\ \A d \in Dirs : q[d] = <<>>
+  /\ \A d \in Dirs \ Held : q[d] = <<>>
   /\ pend = {} /\ {<<x[1], x[2]>> : x \in gone} = Parked
   /\ \A a \in Agent : ~wann[a]
   /\ \A t \in Tunnels : echoN[t] < Len(rcvX[t]) => ~\E x \in Agent : \E r \in exr[x] : r.t = t
@@ -95,7 +103,7 @@ Matches(st) ==
        /\ st.ing[a] = Cardinality(ingr[a])
        /\ st.ex[a] = Cardinality(exr[a])
        /\ st.awake[a] = awake[a]
-  /\ \A t \in 1..Len(st.rx) : st.rx[t] = Len(rcvX[t]) /\ st.ri[t] = Len(rcvI[t])
+  /\ \A t \in 1..Len(st.rx) : st.rx[t] = rcvX[t] /\ st.ri[t] = rcvI[t]
 
 Outcome ==
   /\ ev.ev = "Open" => /\ ev.res = "mesh" => tun[ev.t].st = "open"
@@ -111,7 +119,8 @@ TraceNext == TReset \/ TConnect \/ TFail \/ TAnnounce \/ TSleep \/ TWake \/ TClo
              \/ Silent \/ Settle
 TraceSpec == TraceInit /\ [][TraceNext]_tvars
 
-HighWater == TLCSet(1, IF l > TLCGet(1) THEN l ELSE TLCGet(1))
+HighWater == /\ TLCSet(1, IF l > TLCGet(1) THEN l ELSE TLCGet(1))
+             /\ (Lag = 0 \/ l + Lag >= TLCGet(1))
 TraceAccepted == /\ PrintT("HW " \o ToString(TLCGet(1)))
                  /\ PrintT("LEN " \o ToString(Len(Trace)))
                  /\ TLCGet(1) = Len(Trace) + 1
